@@ -62,18 +62,22 @@ def load_prop(prop_id: str) -> Any:
 def make_plan(prop: Any, tier: str, seed: int, i: int) -> dict:
     """The property's plan plus the environment knobs every property shares (swarm style).
 
-    debug_log: the application configured DEBUG logging for puresnmp (one plan in eight): all the guarded diagnostic
-    code paths (hexdumps, LOG.debug arguments) run; no property may depend on the logging configuration."""
+    debug_log / log_level: the application configured DEBUG logging for puresnmp (one plan in eight: all the guarded
+    diagnostic code paths - hexdumps, LOG.debug arguments - run) or silenced it (CRITICAL, one plan in eight); no
+    property may depend on the logging configuration."""
     plan = prop.plan_for(tier, seed, i)
     if "debug_log" not in plan:
-        plan["debug_log"] = run_seed(seed, prop.ID, tier + ":env", i) % 8 == 0
+        r = run_seed(seed, prop.ID, tier + ":env", i) % 8
+        plan["debug_log"] = r == 0
+        # ... or silenced them altogether (one plan in eight): code guarded by isEnabledFor(WARNING) is skipped
+        plan["log_level"] = "DEBUG" if r == 0 else "CRITICAL" if r == 1 else "WARNING"
     return plan
 
 
 def safe_execute(prop: Any, plan: dict) -> dict:
     """Execute one plan; harness exceptions are classified apart from violations."""
     from . import env as _env
-    _env.set_debug_logging(bool(plan.get("debug_log")))
+    _env.set_log_level(plan.get("log_level") or ("DEBUG" if plan.get("debug_log") else "WARNING"))
     try:
         out = prop.execute(plan)
     except Exception as exc:  # harness bug, not a verdict
@@ -84,6 +88,7 @@ def safe_execute(prop: Any, plan: dict) -> dict:
     out.setdefault("triggers", [])
     out.setdefault("counters", {})
     out["counters"]["probe_debug_logging_on"] = int(bool(plan.get("debug_log")))
+    out["counters"]["probe_logging_silenced"] = int(plan.get("log_level") == "CRITICAL")
     out.setdefault("sim_s", 0.0)
     out.setdefault("exchanges", 0)
     out.setdefault("shape", "")
